@@ -283,7 +283,7 @@ fn gen_unit(rng: &mut Rng, h: &Init, apps: &[App], oneshot: bool) -> (UnitEnv, S
 enum RStep { Fire30, FirePing(usize), Ctl(usize, bool) }
 
 fn steps_tok(v: &[Step]) -> String {
-    if v.is_empty() { "-".into() } else { v.iter().map(|s| match s { Step::Fire(i) => format!("f{}", i), Step::Ctl(id, od) | Step::CtlPair(id, od, _, _) => format!("c{}:{}", id, if *od { "od" } else { "st" }) }).collect::<Vec<_>>().join(",") }
+    if v.is_empty() { "-".into() } else { v.iter().map(|s| match s { Step::Fire(i) => format!("f{}", i), Step::Ctl(id, od) | Step::CtlPair(id, od, _, _) | Step::Race(id, od) => format!("c{}:{}", id, if *od { "od" } else { "st" }), Step::FireCtl(..) => unreachable!() }).collect::<Vec<_>>().join(",") }
 }
 
 fn outcomes_tok(v: &VecDeque<HttpOutcome>) -> String {
@@ -442,6 +442,13 @@ pub fn run_history_opt(rng: &mut Rng, init: Init, nunits: usize, oneshot: bool, 
                 env.during_at = 0;
             }
         }
+        // both branches of the outer wait ready at once: every timer has fired and a request has arrived before the machine
+        // runs again (same restriction: the check must block, so that the reply tells which branch won)
+        if !oneshot && init.force_uc.is_none() && env.during.is_empty() && env.allow.starts_with("ok") && !init.name.contains('\u{1}') && !init.url.contains(' ')
+            && !env.wake.is_empty() && env.wake.iter().all(|s| matches!(s, Step::Fire(_))) && rng.chance(1, 3) {
+            env.wake.push(Step::Race(1000 * k + 260, rng.chance(1, 2)));
+            env.burst = true;
+        }
         let mut rplan: VecDeque<(RStep, (i128, i128))> = VecDeque::new();
         for _ in 0..rng.below(7) {
             let s = match rng.below(5) { 0 => RStep::Fire30, 1 => RStep::Ctl(1000 * k + 300 + rplan.len(), rng.chance(1, 2)), _ => RStep::FirePing(rng.below(2) as usize) };
@@ -456,7 +463,7 @@ pub fn run_history_opt(rng: &mut Rng, init: Init, nunits: usize, oneshot: bool, 
         h.env = envs[0].0.clone();
         if oneshot { h.in_check = true; }
     }
-    struct Done { env: UnitEnv, path: String, start: usize, end: usize, snap_before: Snapshot, snap_after: Snapshot, end_kind: UnitEnd, jit: Vec<i128>, rsteps: Vec<(Step, (i128, i128))>, apps_after: Vec<App>, should: bool }
+    struct Done { strip_fires: bool, env: UnitEnv, path: String, start: usize, end: usize, snap_before: Snapshot, snap_after: Snapshot, end_kind: UnitEnd, jit: Vec<i128>, rsteps: Vec<(Step, (i128, i128))>, apps_after: Vec<App>, should: bool }
     let mut done: Vec<Done> = vec![];
     let mut snap_before = hub.lock().unwrap().snapshot();
     // implementation-only perturbation (the model has no notion of it: its trace must be unchanged): every control
@@ -476,7 +483,7 @@ pub fn run_history_opt(rng: &mut Rng, init: Init, nunits: usize, oneshot: bool, 
         if runner.ended { break; }
         let (env, mut path) = envs[k].clone();
         let mut rplan = rplans[k].clone();
-        if k + 1 == nunits && drop_mode == 1 && env.during.is_empty() && !env.wake.iter().any(|s| matches!(s, Step::Ctl(..))) {
+        if k + 1 == nunits && drop_mode == 1 && env.during.is_empty() && !env.wake.iter().any(|s| matches!(s, Step::Ctl(..) | Step::Race(..))) {
             rplan.retain(|(s, _)| !matches!(s, RStep::Ctl(..)));
             runner.handle = None; runner.ctls.retain(|c| !c.done);
             dropped = true; path.push_str("dropctl-outer/");
@@ -511,12 +518,24 @@ pub fn run_history_opt(rng: &mut Rng, init: Init, nunits: usize, oneshot: bool, 
                 }
                 (t30, pings)
             };
+            let rs0 = rs.clone();
             let step = match rs {
                 RStep::Fire30 => t30.map(Step::Fire),
                 RStep::FirePing(k) => if pings.is_empty() { None } else { Some(Step::Fire(pings[k % pings.len()])) },
                 RStep::Ctl(id, od) => Some(Step::Ctl(id, od)),
             };
             let Some(step) = step else { break r; };
+            // a ping timer and a scheduled-source request at the same instant
+            if let (Step::Fire(i), true) = (&step, matches!(rs0, RStep::FirePing(_))) {
+                if runner.handle.is_some() && rng.chance(1, 3) {
+                    let id = 1000 * k + 400 + rsteps_done.len();
+                    rsteps_done.push((step.clone(), d));
+                    rsteps_done.push((Step::Ctl(id, false), (0, 0)));
+                    hub.lock().unwrap().env.rsteps.push_back((Step::FireCtl(*i, id), d));
+                    if !path.contains("rrace/") { path.push_str("rrace/"); }
+                    continue;
+                }
+            }
             rsteps_done.push((step.clone(), d));
             hub.lock().unwrap().env.rsteps.push_back((step, d));
         };
@@ -536,7 +555,18 @@ pub fn run_history_opt(rng: &mut Rng, init: Init, nunits: usize, oneshot: bool, 
         // control requests scripted for "during the check" that never found their exchange did not happen
         let delivered = { let h = hub.lock().unwrap(); if h.during_log.len() > k { h.during_log[k] } else { h.during_done } };
         if !delivered { env.during = vec![]; }
-        done.push(Done { env, path, start, end: snap_after.trace_len, snap_before: snap_before.clone(), snap_after: snap_after.clone(), end_kind, jit, rsteps: rsteps_done, apps_after, should });
+        // a raced outer wait: the reply says which branch of the `select!` won; the unit is then the same as one where only
+        // that branch became ready (the timers' expiry is not part of the other one's trace)
+        let mut strip_fires = false;
+        let mut path = path;
+        if let Some(Step::Race(id, od)) = env.wake.last().cloned() {
+            let reply = runner.replies.iter().find(|(i, _)| *i == id).map(|(_, r)| r.clone());
+            match reply.as_deref() {
+                Some("started") | Some("throttled") => { env.wake = vec![Step::Ctl(id, od)]; strip_fires = true; path.push_str("race-ctl/"); }
+                _ => { env.wake.pop(); env.during = vec![(id, od)]; env.during_at = 0; path.push_str("race-timer/"); }
+            }
+        }
+        done.push(Done { strip_fires, env, path, start, end: snap_after.trace_len, snap_before: snap_before.clone(), snap_after: snap_after.clone(), end_kind, jit, rsteps: rsteps_done, apps_after, should });
         snap_before = snap_after;
         if waited { should = false; }
         let last = done.last().unwrap();
@@ -551,7 +581,12 @@ pub fn run_history_opt(rng: &mut Rng, init: Init, nunits: usize, oneshot: bool, 
     let all_replies = runner.replies.clone();
     let trace = hub.lock().unwrap().trace.clone();
     for (k, d) in done.iter().enumerate() {
-        let lines = &trace[d.start..d.end];
+        let stripped: Vec<String>;
+        let lines: &[String] = if d.strip_fires {
+            let mut seen_allowed = false;
+            stripped = trace[d.start..d.end].iter().filter(|l| { if l.starts_with("P allowed") { seen_allowed = true; } seen_allowed || !l.starts_with("T fire") }).cloned().collect();
+            &stripped
+        } else { &trace[d.start..d.end] };
         let mode = if oneshot { "oneshot" } else if k == 0 { "start" } else { "run" };
         // start state
         let (apps_tok_s, ctx_tok) = if mode == "run" {
